@@ -59,6 +59,8 @@ def cases(tier, seed):
     for prov in ("md", "noext", "subdir", "plus-txt"):
         for mode in ("used+provided", "provided-only"):
             yield {"whole": mode, "prov": prov}
+    for name in EXTRA_TREES:
+        yield {"extra": name}
 
 
 def expr_for(cls, ident, use):
@@ -141,6 +143,19 @@ def build(case):
     return recipe, uses, lic_files
 
 
+# (recipe, uses, licence files) of trees that are no cell of the product
+EXTRA_TREES = {
+    # a regular file called LICENSES in the root (glibc ships one) is not a LICENSES/ directory
+    "root-file-named-LICENSES": ({"src/f.py": HEADER_C + "# SPDX-License-Identifier: MIT\n", "LICENSES": "This file lists the licences of the bundled code.\n"},
+                                 {"src/f.py": ["MIT"], "LICENSES": []}, []),
+    "root-file-named-LICENSES-with-header": ({"src/f.py": HEADER_C + "# SPDX-License-Identifier: MIT\n", "LICENSES": "SPDX-FileCopyrightText: 2020 Jane\nSPDX-License-Identifier: MIT\n"},
+                                             {"src/f.py": ["MIT"], "LICENSES": ["MIT"]}, []),
+    # editor backups and merge left-overs next to a licence text
+    "backup-files-in-LICENSES": ({"src/f.py": HEADER_C + "# SPDX-License-Identifier: MIT\n", "LICENSES/MIT.txt": "t\n", "LICENSES/README.md": "about this directory\n"},
+                                 {"src/f.py": ["MIT"]}, ["LICENSES/MIT.txt", "LICENSES/README.md"]),
+}
+
+
 def build_whole(mode, prov="txt"):
     recipe, uses, lic_files = {}, {}, []
     ids = sorted(inv.SPDX)
@@ -165,7 +180,10 @@ def build_whole(mode, prov="txt"):
 
 def evaluate(case) -> R:
     r = R()
-    if "whole" in case:
+    if "extra" in case:
+        recipe, uses, lic_files = EXTRA_TREES[case["extra"]]
+        label = "extra:" + case["extra"]
+    elif "whole" in case:
         recipe, uses, lic_files = build_whole(case["whole"], case.get("prov", "txt"))
         label = "whole:" + case["whole"] + ("|" + case["prov"] if case.get("prov") else "")
     else:
